@@ -95,6 +95,12 @@ func TestPropDisconnect(t *testing.T) {
 		case <-time.After(20 * time.Second):
 			rt.Fatalf("VERIF-INCONCLUSIVE: ListenAndServe did not start")
 		}
+		// (OnServe is called once the subscriptions have been handed to the client library, not
+		// once the server has them: a ping round trip on the service's connection comes first)
+		if snc, ok := s.Conn().(*nats.Conn); !ok || snc.FlushTimeout(60*time.Second) != nil {
+			stop()
+			rt.Fatalf("VERIF-INCONCLUSIVE: the service's connection could not be flushed after the start")
+		}
 		client, err := srv.Connect()
 		if err != nil {
 			stop()
@@ -124,7 +130,7 @@ func TestPropDisconnect(t *testing.T) {
 		go func() { running.Wait(); close(okc) }()
 		select {
 		case <-okc:
-		case <-time.After(10 * time.Second):
+		case <-time.After(60 * time.Second):
 			close(replyNow)
 			close(replyLate)
 			stop()
